@@ -6,6 +6,7 @@ import (
 	"os"
 	"sort"
 	"strings"
+	"sync"
 	"time"
 
 	"golang.org/x/tools/go/packages"
@@ -27,6 +28,43 @@ func loadEngine(cs *Contracts, pkgPaths []string, overlay map[string][]byte) (*E
 	pkgs, err := packages.Load(cfg, pkgPaths...)
 	if err != nil {
 		return nil, err
+	}
+	// Mixing source-checked packages with export data for their dependencies occasionally confuses type identity
+	// when many packages are loaded at once; fall back to type-checking the dependencies from source as well.
+	hasErr := false
+	for _, p := range pkgs {
+		if len(p.Errors) > 0 {
+			hasErr = true
+		}
+	}
+	if hasErr && len(pkgPaths) > 1 {
+		// load every package on its own (each function is verified inside its own package's type universe)
+		type lr struct {
+			ps  []*packages.Package
+			err error
+		}
+		results := make([]lr, len(pkgPaths))
+		sem := make(chan struct{}, 6)
+		var wg sync.WaitGroup
+		for i, pp := range pkgPaths {
+			wg.Add(1)
+			go func(i int, pp string) {
+				defer wg.Done()
+				sem <- struct{}{}
+				defer func() { <-sem }()
+				c2 := *cfg
+				ps, err := packages.Load(&c2, pp)
+				results[i] = lr{ps, err}
+			}(i, pp)
+		}
+		wg.Wait()
+		pkgs = nil
+		for _, r := range results {
+			if r.err != nil {
+				return nil, r.err
+			}
+			pkgs = append(pkgs, r.ps...)
+		}
 	}
 	e := &Engine{pkgs: map[string]*packages.Package{}, contracts: cs, modPath: modPath, overlay: overlay}
 	for _, p := range pkgs {
@@ -61,6 +99,8 @@ func main() {
 	switch os.Args[1] {
 	case "verify":
 		cmdVerify(os.Args[2:])
+	case "gen-decoders":
+		cmdGenDecoders(repoDir)
 	case "selftest":
 		r := runSelftest(os.Args[2])
 		fmt.Printf("%s: mutants=%v detected=%v\n", os.Args[2], r["mutants"], r["detected"])
